@@ -19,6 +19,7 @@ var repoDir = func() string {
 	}
 	return "/repo"
 }()
+
 const repoMod = "github.com/vbauerster/mpb/v8"
 
 var harnessDir = func() string {
